@@ -516,6 +516,9 @@ class ClassPage(CommonPage):
 
 def get_override_info(cls:model.Class, member_name:str, page_url:Optional[str]=None) -> Iterator["Flattenable"]:
     page_url = page_url or cls.page_object.url
+    if model.is_class_private(member_name):
+        # mangled with the class name: overrides nothing and cannot be overridden
+        return
     for b in cls.mro(include_self=False):
         if member_name not in b.contents:
             continue
